@@ -495,7 +495,8 @@ let grammarits_line line =
            let its = match link_witness ld with Some _ -> 1 | None -> 0 in
            let stave = match stave_witness ld with Some _ -> 1 | None -> 0 in
            let cdw = match link_witness_cdw ld with Some _ -> 1 | None -> 0 in
-           Printf.sprintf "wf=%d its=%d stave=%d cdw=%d %s" (if wf_link_rdh ld then 1 else 0) its stave cdw
+           let scdw = match stave_witness_cdw ld with Some _ -> 1 | None -> 0 in
+           Printf.sprintf "wf=%d its=%d stave=%d cdw=%d scdw=%d %s" (if wf_link_rdh ld then 1 else 0) its stave cdw scdw
              (String.concat "," (List.map (fun (r, p) -> hex_of_bytes (encode_rdh r) ^ hex_of_bytes p) (render_link ld)))
        | _ -> "BAD")
   | _ -> "BAD"
